@@ -32,21 +32,19 @@ def classes():
   if not _CLS:
     import pyglove as pg
 
-    class C09Sub(pg.Object):          # overrides the change handler
-      allow_symbolic_assignment = True
-      x: pg.typing.Any(default=None)
-      y: pg.typing.Any(default=None)
-      z: pg.typing.Any(default=None)
-
-      def _on_change(self, field_updates):
-        LOG.append((OBJ_IDS.get(id(self)), field_updates))
-        return super()._on_change(field_updates)
-
     class C09Plain(pg.Object):        # default handler: does not subscribe
       allow_symbolic_assignment = True
       x: pg.typing.Any(default=None)
       y: pg.typing.Any(default=None)
       z: pg.typing.Any(default=None)
+
+    class C09Mid(C09Plain):           # an intermediate class that does not override the handler either
+      pass
+
+    class C09Sub(C09Mid):             # only this class of the hierarchy overrides the change handler
+      def _on_change(self, field_updates):
+        LOG.append((OBJ_IDS.get(id(self)), field_updates))
+        return super()._on_change(field_updates)
 
     class C09Req(pg.Object):          # a required field (partial values), for the facts stream
       allow_symbolic_assignment = True
@@ -56,7 +54,22 @@ def classes():
     class C09Pure(pg.PureSymbolic, pg.Object):   # a placeholder value
       pass
 
-    _CLS.update(sub=C09Sub, plain=C09Plain, req=C09Req, pure=C09Pure)
+    class C09Inner(pg.Object):        # an object used as a field value that has a default
+      allow_symbolic_assignment = True
+      k: pg.typing.Any(default=1)
+      m: pg.typing.Any(default=None)
+
+    class C09Def(pg.Object):          # fields whose defaults are containers: sym_nondefault() diffs against
+      allow_symbolic_assignment = True  # them without asking the children for their own memoised facts
+      d: pg.typing.Dict([
+          ('a', pg.typing.Dict([('k', pg.typing.Any(default=1)), ('j', pg.typing.Any(default=None)),
+                                ('e', pg.typing.Dict([('u', pg.typing.Any(default=2)), ('w', pg.typing.Any(default=None))]))])),
+          ('b', pg.typing.Any(default=0))])
+      o: pg.typing.Object(C09Inner).set_default(C09Inner())
+      x: pg.typing.Any(default=None)
+
+    _CLS.update(sub=C09Sub, plain=C09Plain, mid=C09Mid, req=C09Req, pure=C09Pure, inner=C09Inner)
+    _CLS['def'] = C09Def
   return _CLS
 
 
@@ -112,6 +125,8 @@ def mirror_write(node, key, v):
 
 def mirror(t, step):
   """Applies the step to the JSON tree (contents only; used to keep later receivers valid)."""
+  if 'read' in step:
+    return
   node = get_at(t, step['recv'])
   c = step['call']
   n = c['name']
@@ -260,10 +275,13 @@ def build(t):
     v = pg.List([build(c) for _, c in t['items']], onchange_callback=cb)
   elif t['k'] == 'dict':
     v = pg.Dict({k: build(c) for k, c in t['items']}, onchange_callback=cb)
+  elif t['k'] in ('def', 'inner'):
+    v = cls[t['k']](**{k: build(c) for k, c in t['items']})
   elif t['k'] == 'req':
     v = cls['req'].partial(**{k: build(c) for k, c in t['items'] if not (isinstance(c, dict) and c.get('missing'))})
   else:
-    v = cls['sub' if t.get('sub') else 'plain'](**{k: build(c) for k, c in t['items']})
+    # non-subscribing objects alternate between the base class and the intermediate class
+    v = cls['sub' if t.get('sub') else ('plain' if nid % 2 else 'mid')](**{k: build(c) for k, c in t['items']})
     OBJ_IDS[id(v)] = nid
   return v
 
@@ -306,10 +324,22 @@ def sym_nodes(v, path=()):
   return out
 
 
-def facts(n):
+FACTS = ['nondefault', 'missing', 'partial', 'pure', 'deterministic']
+
+
+def facts(n, names=None):
   import pyglove as pg
   def j(x):
     return json.dumps(pg.to_json(x), sort_keys=True, default=str)
+  if names is not None:
+    getters = {
+        'nondefault': lambda: sorted([str(k), j(x)] for k, x in n.sym_nondefault().items()),
+        'missing': lambda: sorted([str(k), j(x)] for k, x in n.sym_missing().items()),
+        'partial': lambda: bool(n.is_partial),
+        'pure': lambda: bool(n.sym_puresymbolic),
+        'deterministic': lambda: bool(n.is_deterministic),
+    }
+    return {k: getters[k]() for k in names}
   return {
       'nondefault': sorted([str(k), j(x)] for k, x in n.sym_nondefault().items()),
       'missing': sorted([str(k), j(x)] for k, x in n.sym_missing().items()),
@@ -369,7 +399,7 @@ def do_call(node, c):
     else:
       node.extend([plain(v) for v in c['vs']])
   elif n == 'rebind':
-    node.rebind({pg.KeyPath(list(p)): plain(v) for p, v in c['pairs']})
+    node.rebind({pg.KeyPath(list(p)): plain(v) for p, v in c['pairs']}, skip_notification=True if c.get('skip') else None)
   elif n == 'update':
     node.update({k: plain(v) for k, v in c['kvs']})
   elif n == 'insert':
@@ -644,7 +674,13 @@ class C09(Prop):
           'remove, slice assignment and del slice with any start / stop / step, *=) on trees of depth <= 3 mixing pg.Dict / pg.List with or without '
           'onchange_callback and pg.Object classes with and without an overridden _on_change; 15 % of the '
           'calls inside notify_on_change(False); every derived fact of every node is read after every call. '
-          'A second, oracle-only stream inserts partial objects, pure-symbolic and non-deterministic values. '
+          'A chosen-reads stream (700 histories): derived facts are read only at chosen nodes at chosen moments '
+          '(read steps; model: readAt), interleaved with notified and silent writes (notify_on_change(False), '
+          'rebind(skip_notification=True), Dict.update) two or more levels below, every history ending with a read of '
+          'everything; the same on typed trees (500 histories, oracle-only) whose objects have schema-bound nested '
+          'Dict / object fields with defaults, so that sym_nondefault() is a snapshot memoised at the object only. '
+          'Object classes form the hierarchy Plain -> Mid -> Sub (only Sub overrides _on_change) and are created '
+          'afresh for every case. A second, oracle-only stream inserts partial objects, pure-symbolic and non-deterministic values. '
           'Non-trivial: some node on the path from the root to a written location subscribes; distinct by JSON.')
   trusted_base = [
       'harness handlers (_on_change override, onchange_callback) and the canonicalisation of FieldUpdate payloads',
@@ -668,10 +704,129 @@ class C09(Prop):
     n = 1500 if tier == 'quick' else 30000
     for _ in range(n):
       yield g.case()
+    for c in self.read_cases(rng, 700 if tier == 'quick' else 14000):
+      yield c
+    for c in self.typed_read_cases(rng, 500 if tier == 'quick' else 10000):
+      yield c
     for c in self.facts_cases(rng, 150 if tier == 'quick' else 3000):
       yield c
     for c in self.detached_cases(rng, 200 if tier == 'quick' else 4000):
       yield c
+
+  def read_cases(self, rng, n):
+    """Histories in which the harness READS derived facts only at chosen nodes at chosen moments (so
+    that some nodes memoise a fact while the nodes between them and a later write memoise nothing),
+    interleaved with notified and silent writes at any depth (accessor write inside
+    notify_on_change(False), rebind(skip_notification=True), Dict.update, clear / reverse / sort);
+    trees of depth >= 3 with pg.Object nodes (whose sym_nondefault is computed by diffing against the
+    defaults, without asking the children). Every history ends with a read of everything."""
+    g = Gen(rng)
+    made = 0
+    for _ in range(n * 5):
+      if made >= n:
+        break
+      g.next_id = 1
+      g.no_obj = rng.chance(0.25)
+      t = g.tree(rng.randint(2, 4), rng.choice(['dict', 'list']) if g.no_obj else rng.choice(['obj', 'obj', 'dict', 'list']),
+                 rng.choice([0.0, 0.3, 0.6]))
+      if max(len(p) for p, _ in all_nodes(t)) < 2:
+        continue
+      shadow = json.loads(json.dumps(t))
+      steps = []
+      for _ in range(rng.randint(2, 7)):
+        nodes = all_nodes(shadow)
+        if rng.chance(0.4):
+          upper = sorted(nodes, key=lambda pn: len(pn[0]))[:max(1, len(nodes) // 2)]
+          picks = [rng.choice(upper if rng.chance(0.7) else nodes) for _ in range(rng.choice([1, 1, 2]))]
+          k = rng.below(10)
+          names = ['nondefault'] if k < 6 else (list(FACTS) if k < 8 else rng.sample(FACTS, rng.randint(1, 3)))
+          steps.append({'read': [[p, names] for p, _ in picks]})
+          continue
+        deep = [pn for pn in nodes if len(pn[0]) >= 2] or nodes
+        path, node = rng.choice(deep if rng.chance(0.7) else nodes)
+        call = g.call(shadow, path, node)
+        step = {'recv': path, 'notify': rng.chance(0.45), 'call': call}
+        if call['name'] == 'rebind' and rng.chance(0.5):
+          call['skip'] = True
+          step['notify'] = True
+        if call['name'] == 'setslice' and call.get('step') in (None, 1):
+          size = len(range(*slice(call['a'], call['b'], 1).indices(len(node['items']))))
+          if len(call['vs']) < size:
+            step['notify'] = True
+        steps.append(step)
+        mirror(shadow, json.loads(json.dumps(step)))
+      if not any('call' in s_ for s_ in steps):
+        continue
+      steps.append({'read': [[p, list(FACTS)] for p, _ in all_nodes(shadow)]})
+      made += 1
+      yield {'tree': t, 'steps': steps, 'reads': 'chosen'}
+
+  def typed_read_cases(self, rng, n):
+    """Oracle-only (value specs are outside the model): the chosen-reads histories of `read_cases` on
+    trees that hold objects whose fields are schema-bound nested Dicts / objects with defaults -- their
+    sym_nondefault() is a snapshot computed by diffing against the defaults and memoised at the object
+    only, so the nodes between it and a later write memoise nothing."""
+    g = Gen(rng)
+    def tdict(items):
+      return {'k': 'dict', 'id': 0, 'sub': False, 'typed': True, 'items': items}
+    def def_node(depth):
+      x = g.atom() if depth <= 0 or rng.chance(0.5) else (def_node(depth - 1) if rng.chance(0.5) else g.tree(1, None, 0.3))
+      return {'k': 'def', 'id': 0, 'sub': False, 'typed': True, 'items': [
+          ['d', tdict([['a', tdict([['k', g.atom()], ['j', g.atom()], ['e', tdict([['u', g.atom()], ['w', g.atom()]])]])],
+                       ['b', g.atom()]])],
+          ['o', {'k': 'inner', 'id': 0, 'sub': False, 'typed': True,
+                 'items': [['k', g.atom()], ['m', g.atom() if rng.chance(0.5) else g.tree(1, 'dict', 0.3)]]}],
+          ['x', x]]}
+    for _ in range(n):
+      g.next_id = 1
+      g.no_obj = False
+      inner = def_node(rng.below(2))
+      wrap = rng.below(4)
+      if wrap == 0:
+        t = inner
+      elif wrap == 1:
+        t = {'k': 'dict', 'id': 0, 'sub': rng.chance(0.3), 'items': [['h', inner], ['c', g.atom()]]}
+      elif wrap == 2:
+        t = {'k': 'list', 'id': 0, 'sub': rng.chance(0.3), 'items': [[0, g.atom()], [1, inner]]}
+      else:
+        t = {'k': 'obj', 'id': 1, 'sub': False, 'items': [['x', inner], ['y', g.atom()], ['z', None]]}
+      shadow = json.loads(json.dumps(t))
+      steps = []
+      for _ in range(rng.randint(2, 7)):
+        nodes = all_nodes(shadow)
+        if rng.chance(0.4):
+          upper = [pn for pn in nodes if pn[1]['k'] in ('def', 'obj', 'inner') or not pn[0]]
+          picks = [rng.choice(upper if rng.chance(0.75) else nodes) for _ in range(rng.choice([1, 1, 2]))]
+          names = ['nondefault'] if rng.chance(0.7) else list(FACTS)
+          steps.append({'read': [[p, names] for p, _ in picks]})
+          continue
+        typed = [pn for pn in nodes if pn[1].get('typed')]
+        path, node = rng.choice(typed if typed and rng.chance(0.8) else nodes)
+        if node.get('typed'):
+          leaves = [k for k, c in node['items'] if not is_node(c)]
+          below = [(list(p) + [k]) for p, x in all_nodes(node) if x.get('typed') for k, c in x['items'] if not is_node(c)]
+          kind = rng.below(3)
+          if kind == 0 and leaves:
+            call = {'name': 'setkey', 'key': rng.choice(leaves), 'v': g.atom()}
+          elif kind == 1 and leaves and node['k'] == 'dict':
+            call = {'name': 'update', 'kvs': [[k, g.atom()] for k in rng.sample(leaves, rng.randint(1, len(leaves)))]}
+          elif below:
+            call = {'name': 'rebind', 'pairs': [[p, g.atom()] for p in rng.sample(below, rng.randint(1, min(3, len(below))))]}
+            if rng.chance(0.5):
+              call['skip'] = True
+          else:
+            continue
+        else:
+          call = g.call(shadow, path, node)
+        step = {'recv': path, 'notify': True if call.get('skip') else rng.chance(0.4), 'call': call}
+        if call['name'] == 'setslice':
+          step['notify'] = True
+        steps.append(step)
+        mirror(shadow, json.loads(json.dumps(step)))
+      if not any('call' in s_ for s_ in steps):
+        continue
+      steps.append({'read': [[p, list(FACTS)] for p, _ in all_nodes(shadow)]})
+      yield {'tree': t, 'steps': steps, 'reads': 'chosen', 'facts_only': True}
 
   def facts_cases(self, rng, n):
     g = Gen(rng)
@@ -749,20 +904,37 @@ class C09(Prop):
   def model_request(self, case):
     if case.get('facts_only'):
       return None
-    return {'op': 'run', 'tree': case['tree'], 'steps': case['steps']}
+    steps = []
+    for s_ in case['steps']:
+      if 'read' in s_:
+        steps.append({'read': [p for p, names in s_['read'] if 'nondefault' in names]})
+      elif s_['call'].get('skip'):
+        steps.append(dict(s_, notify=False))       # rebind(skip_notification=True): nobody is notified
+      else:
+        steps.append(s_)
+    req = {'op': 'run', 'tree': case['tree'], 'steps': steps}
+    if case.get('reads') == 'chosen':
+      req['reads'] = 'chosen'
+    return req
 
   def impl(self, case):
     import pyglove as pg
+    _CLS.clear()          # fresh classes for every case: whatever a class remembers starts empty
     classes()
     del LOG[:]
     OBJ_IDS.clear()
     root = build(case['tree'])
-    read_all(root)
+    chosen = case.get('reads') == 'chosen'
+    if not chosen:
+      read_all(root)
     outs = []
     kept = []
     for step in case['steps']:
       pre = canon(root)
       del LOG[:]
+      if 'read' in step:
+        outs.append(self.impl_read(case, root, step, pre))
+        continue
       ok = True
       err = None
       if 'keep' in step:
@@ -777,6 +949,9 @@ class C09(Prop):
           ok = False
           err = type(e).__name__
       events = canon_log(LOG)
+      if chosen:
+        outs.append({'ok': ok, 'err': err, 'events': events, 'reads': [], 'value': canon(root), 'pre': pre, 'stale': []})
+        continue
       got = read_all(root)
       want = recomputed(root)
       stale = []
@@ -794,6 +969,31 @@ class C09(Prop):
                    'value': canon(root), 'pre': pre, 'stale': stale})
     model = {'steps': [{'ok': o['ok'], 'events': o['events'], 'reads': o['reads'], 'value': o['value']} for o in outs]}
     return {'model': model, 'steps': outs}
+
+  def impl_read(self, case, root, step, pre):
+    """A `read` step: the chosen facts of the chosen nodes, through the public accessors, compared with
+    the same facts of a JSON round-tripped copy (a fresh computation on the current contents)."""
+    import pyglove as pg
+    copy = pg.from_json(pg.to_json(root), allow_partial=True)
+    stale, reads = [], []
+    for path, names in step['read']:
+      try:
+        n, c = navigate(root, path), navigate(copy, path)
+      except Exception:    # pylint: disable=broad-except
+        continue
+      if not isinstance(n, pg.Symbolic):
+        continue
+      got, want = facts(n, names), facts(c, names)
+      bad = sorted(k for k in got if got[k] != want[k])
+      if bad:
+        stale.append([path, bad])
+      if ('nondefault' in names and obj_free(case['tree'])
+          and not any(isinstance(m, pg.Object) for _, m in sym_nodes(n))):
+        nd = n.sym_nondefault()
+        reads.append([path, sorted(([pg.KeyPath.parse(k).keys if isinstance(k, str) else [k], x] for k, x in nd.items()),
+                                   key=lambda e: json.dumps(e))])
+    reads = sorted(reads, key=lambda e: json.dumps(e))
+    return {'ok': True, 'err': None, 'events': [], 'reads': reads, 'value': canon(root), 'pre': pre, 'stale': stale}
 
   def compare(self, case, impl_out, model_out):
     a = impl_out['model']['steps']
@@ -815,7 +1015,20 @@ class C09(Prop):
   # -- the property itself ------------------------------------------------------------------
   def oracle(self, case, out):
     tree = json.loads(json.dumps(case['tree']))
+    last = None
     for step, o in zip(case['steps'], out['steps']):
+      if 'read' in step:
+        if o['stale']:
+          how = 'read'
+          if last is not None:
+            silent = (not last['notify']) or last['call'].get('skip') or last['call']['name'] == 'update'
+            how = ('notify-off:' if silent else '') + last['call']['name']
+          return {'signature': 'stale:' + how,
+                  'what': 'facts read at %s after %s differ from a fresh computation on the JSON round-tripped '
+                          'copy: %s' % ([p for p, _ in step['read']][:4],
+                                        json.dumps(last['call'])[:160] if last else 'construction', o['stale'][:3])}
+        continue
+      last = step
       f = self.oracle_step(case, tree, step, o)
       if f:
         return f
@@ -851,7 +1064,7 @@ class C09(Prop):
       return None
     # contract ------------------------------------------------------------------------------
     events = o['events']
-    silent = (not step['notify']) or name in ('update',)
+    silent = (not step['notify']) or name in ('update',) or bool(step['call'].get('skip'))
     if not o['ok'] or silent:
       if events:
         return {'signature': 'event-while-silent:' + name,
@@ -997,13 +1210,29 @@ class C09(Prop):
   def nontrivial(self, case, out):
     t = case['tree']
     for s in case['steps']:
+      if 'read' in s:
+        if case.get('reads') == 'chosen' and len(s['read']) < len(all_nodes(t)):
+          return True            # a partial read: some memos are filled, others are not
+        continue
       if self.subscribing_ancestors(t, s['recv']):
         return True
     return False
 
   def describe(self, case, out):
     h = ['steps:%d' % len(case['steps']), 'stream:' + ('facts' if case.get('facts_only') else 'modelled')]
+    if case.get('reads') == 'chosen':
+      h.append('reads:chosen')
     for s, o in zip(case['steps'], out['steps']):
+      if 'read' in s:
+        h.append('op:read')
+        h.append('read-nodes:%d' % min(len(s['read']), 5))
+        for _, names in s['read'][:1]:
+          h.append('read-facts:' + ('all' if len(names) == len(FACTS) else '+'.join(names)))
+        if o['stale']:
+          h.append('stale-at-read')
+        continue
+      if s['call'].get('skip'):
+        h.append('rebind:skip_notification')
       h.append('op:' + s['call']['name'])
       h.append('notify:%s' % s['notify'])
       h.append('events:%d' % min(len(o['events']), 4))
@@ -1030,6 +1259,13 @@ class C09(Prop):
         c['steps'] = steps[:i] + steps[i + 1:]
         yield c
     for i, s in enumerate(steps):
+      if 'read' in s:
+        if len(s['read']) > 1:
+          for j in range(len(s['read'])):
+            c = dict(case)
+            c['steps'] = steps[:i] + [{'read': s['read'][:j] + s['read'][j + 1:]}] + steps[i + 1:]
+            yield c
+        continue
       if s['call']['name'] == 'rebind' and len(s['call']['pairs']) > 1:
         for j in range(len(s['call']['pairs'])):
           s2 = json.loads(json.dumps(s))
